@@ -2,6 +2,7 @@ package main
 
 import (
 	"fmt"
+	"go/token"
 	"go/types"
 	"sort"
 	"strings"
@@ -27,6 +28,9 @@ func runC09(c *Ctx) {
 	// pop/push under the lock are necessary for "no two holders of one buffer" (rules shared with C10)
 	c10Free(c)
 	c10Pool(c)
+	// a message queued for the loop must not share storage with the reader that keeps filling its buffer (shared with C10/C11)
+	ruleBorrow(c, "borrow-lifetime")
+	c10CopyOut(c)
 }
 
 // sharedTypes: struct types that can be reached from two different listeners' proxies: arguments of the per-listener
@@ -396,6 +400,93 @@ func c09LockOrder(c *Ctx) {
 			}
 		})
 	}
+	// rendezvous under a lock: a send on an UNBUFFERED channel field waits for the receiving goroutine; if the sender
+	// holds a lock that the receiver may need before it gets back to the receive, the two wait for each other
+	type chanInfo struct {
+		unbuffered bool
+		caps       []string
+		recvFns    []*ssa.Function
+	}
+	chans := map[string]*chanInfo{}
+	get := func(ref string) *chanInfo {
+		if chans[ref] == nil {
+			chans[ref] = &chanInfo{unbuffered: true}
+		}
+		return chans[ref]
+	}
+	chanRefOf := func(v ssa.Value) string {
+		ref, _ := loadedField(v)
+		return ref
+	}
+	for _, fn := range w.All {
+		eachInstr(fn, func(in ssa.Instruction) {
+			switch x := in.(type) {
+			case *ssa.Store:
+				if mc, ok := strip(x.Val).(*ssa.MakeChan); ok {
+					if fa, ok := x.Addr.(*ssa.FieldAddr); ok {
+						ci := get(fieldRef(fa))
+						k, isK := constInt(mc.Size)
+						ci.caps = append(ci.caps, w.termKey(mc.Size))
+						if !isK || k > 0 {
+							ci.unbuffered = false
+						}
+					}
+				}
+			case *ssa.UnOp:
+				if x.Op == token.ARROW {
+					if ref := chanRefOf(x.X); ref != "" {
+						get(ref).recvFns = append(get(ref).recvFns, fn)
+					}
+				}
+			case *ssa.Select:
+				for _, st := range x.States {
+					if st.Dir == types.RecvOnly {
+						if ref := chanRefOf(st.Chan); ref != "" {
+							get(ref).recvFns = append(get(ref).recvFns, fn)
+						}
+					}
+				}
+			}
+		})
+	}
+	nSend := 0
+	for _, fn := range w.All {
+		eachInstr(fn, func(in ssa.Instruction) {
+			sd, ok := in.(*ssa.Send)
+			if !ok {
+				return
+			}
+			ref := chanRefOf(sd.Chan)
+			if ref == "" {
+				return
+			}
+			held := t.locksAt(in)
+			if len(held) == 0 {
+				return
+			}
+			nSend++
+			ci := get(ref)
+			key := "send-under-lock/" + ref + "@" + w.fname(fn)
+			if len(ci.caps) == 0 {
+				c.undecided(rule, key, w.ipos(in), "the channel "+ref+" is sent on while "+fmtSet(held)+" is held, but where it is made was not found: its capacity is unknown")
+				return
+			}
+			if !ci.unbuffered {
+				c.ok(rule, key, w.ipos(in), "sent while holding "+fmtSet(held)+": the channel is buffered (capacity "+strings.Join(ci.caps, ",")+"), the sender does not wait for the receiver")
+				return
+			}
+			clash := ""
+			for _, rf := range ci.recvFns {
+				for h := range held {
+					if acq[rf][h] {
+						clash = h + " (receiver " + w.fname(rf) + ")"
+					}
+				}
+			}
+			c.check(clash == "", rule, key, w.ipos(in), "rendezvous with a receiver that never needs the held locks", "the send on the unbuffered channel "+ref+" waits for its receiver while "+fmtSet(held)+" is held, and the receiving goroutine may be waiting for "+clash+" at that moment: both block for ever (a membership change during a dispatch deadlocks the listener)")
+		})
+	}
+	c.info(rule, "sends-under-lock", "-", fmt.Sprintf("%d channel sends executed with a lock held inspected", nSend))
 	// cycle detection
 	var order []string
 	for h := range edges {
